@@ -674,7 +674,14 @@ func (r *vRunner) run(c vCase) {
 			name := string(vunhex(o.Test))
 			t := r.t(name)
 			nlog := len(t.logs)
-			Skip(t, "skipped by harness")
+			switch o.Form { // the three wrappers record the test name alike
+			case "f":
+				Skipf(t, "skipped by %s", "harness")
+			case "now":
+				SkipNow(t)
+			default:
+				Skip(t, "skipped by harness")
+			}
 			lk := []string{}
 			for _, l := range t.logs[nlog:] {
 				lk = append(lk, vClassifyLog(l))
